@@ -3,7 +3,7 @@
 
    The facts are computed by the harness from the REAL emitted modules
    (re-parsed with deno_ast + scope analysis, source map decoded); nothing
-   here models the transform.  What is proved (Proofs/ClosureProofs.v) is
+   here models the transform.  What is proved (Proofs/FcClosureProofs.v) is
    that the executable judge decides the declarative statement Closed. *)
 From DG Require Import Base.Util Base.Reach Model.Lattice.
 
